@@ -34,3 +34,16 @@ package rep
 //@   at select#1 assert selidx == 0 ==> hops >= 1 && hops <= s.ttl && 4*hops <= len(body0) && body0[4*(hops-1)] >= 128 && forall(j, 0, hops-1, body0[4*j] < 128)
 //@   at call:Free#1 assert forall(j, 0, hops, body0[4*j] < 128) && hops >= s.ttl
 //@   at call:Free#2 assert forall(j, 0, hops-1, body0[4*j] < 128) && len(body0) < 4*hops
+//@
+//@ func (*context).RecvMsg
+//@   ghost hdr1 = m.Header at call:Lock#2
+//@   at call:Unlock#4 assert m != nil ==> eqseq(c.backtrace, hdr1) && arrof(c.backtrace) != arrof(hdr1) && c.recvPipe == p && len(m.Header) == 0
+//@
+//@ func (*context).SendMsg
+//@   ghost bt = c.backtrace at call:Lock#1
+//@   ghost rp = c.recvPipe at call:Lock#1
+//@   at if#3.then assert isnil(bt)
+//@   at if#3.else assert !isnil(bt)
+//@   before select#1 assert p == rp && m.Header == bt
+//@   at call:Unlock#3 assert isnil(c.backtrace) && c.recvPipe == nil
+//@   ensures isnil(bt) && result != protocol.ErrClosed ==> result == protocol.ErrProtoState
